@@ -194,6 +194,9 @@ func (e *Enc) enterLoop(fr *Frame, li *loopInfo, pre *State) *State {
 	}
 	li.preSt = pre
 	head := pre.clone()
+	e.epochCounter++
+	headEpoch := &lazyEpoch{id: e.epochCounter, names: map[string]bool{}}
+	head.epochs = append(head.epochs, headEpoch)
 	// havoc what the loop body may modify
 	mod := e.loopModSet(fr, li)
 	head.reach = e.fresh("r_"+label, SBool)
@@ -219,7 +222,7 @@ func (e *Enc) enterLoop(fr *Frame, li *loopInfo, pre *State) *State {
 				mod.heaps[n] = true
 			}
 		}
-		head.lazyAll = true
+		headEpoch.all = true
 	}
 	if mod.allScalar {
 		for n := range e.base {
@@ -232,7 +235,7 @@ func (e *Enc) enterLoop(fr *Frame, li *loopInfo, pre *State) *State {
 				mod.heaps[n] = true
 			}
 		}
-		head.lazyScalar = true
+		headEpoch.scalar = true
 	}
 	var hns []string
 	for n := range mod.heaps {
@@ -244,7 +247,7 @@ func (e *Enc) enterLoop(fr *Frame, li *loopInfo, pre *State) *State {
 		if !ok {
 			old, ok = e.base[n]
 			if !ok {
-				head.lazy[n] = true
+				headEpoch.names[n] = true
 				continue
 			}
 		}
